@@ -203,3 +203,15 @@ v("C18", M, "            finally:\n                # also when the query raises 
 v("C19", S, "            (self.sa is not None and sa != self.sa)\n            or (", "            (self.sa is not None and sa != self.sa and self.state != ResponseState.WAIT_FOR_KEY)\n            or (", "break", "intruder joins during the key wait")
 v("C19", S, "                data[0],\n                sa,\n                j1939.ParameterGroupNumber.PGN.DM15,", "                data[0],\n                self.sa if self.sa is not None else sa,\n                j1939.ParameterGroupNumber.PGN.DM15,", "break", "busy answer sent to the running requester")
 v("C19", M, "                case DMState.WAIT_QUERY:\n                    self.server.set_busy(True)", "                case DMState.WAIT_QUERY:\n                    self.server.set_busy(False)", "break", "not busy while querying")
+
+# ---------------------------------------------------------------- added after the first seeded round
+v("C12", ECU, "            time_to_sleep = next_wakeup - time.time()", "            time_to_sleep = next_wakeup - now", "break", "sleep computed from the stale clock reading (seeded C12A)")
+v("C12", ECU, "            time_to_sleep = next_wakeup - time.time()", "            current = time.time()\n            time_to_sleep = next_wakeup - current", "keep", "fresh reading through a local")
+v("C17", M, "                    object_byte_size,\n                    signed,\n                    return_raw_bytes,\n                    max_timeout,", "                    object_byte_size,\n                    return_raw_bytes,\n                    signed,\n                    max_timeout,", "break", "facade swaps two boolean arguments (seeded C17A)")
+v("C17", M, "                    object_byte_size,\n                    signed,\n                    return_raw_bytes,\n                    max_timeout,", "                    object_byte_size,\n                    return_raw_bytes=return_raw_bytes,\n                    signed=signed,\n                    max_timeout=max_timeout,", "keep", "keywords in another order")
+v("C17", S, "        if self.command == j1939.Command.WRITE.value:\n            # data of a write request; for a multi-packet read this callback only\n            # sees the end of message acknowledge, which carries no memory data\n            length = min(data[0], len(data) - 1)\n            self.data_queue.put(data[1 : length + 1])",
+  "        length = min(data[0], len(data) - 1)\n        self.data_queue.put(data[1 : length + 1])", "break", "EOM-ack payload queued (original defect D16)")
+v("C17", S, "        if self.command == j1939.Command.WRITE.value:\n            # data of a write request;", "        if self.state == ResponseState.WAIT_FOR_DM16:\n            # data of a write request;", "keep", "guard by state instead of command")
+v("C01,C10", J21, "            buffer_hash = self._buffer_hash(src_address, dest_address)\n            if buffer_hash in self._snd_buffer:", "            buffer_hash = self._buffer_hash(src_address, pdu_specific)\n            if buffer_hash in self._snd_buffer:", "break", "PDU2 broadcast booked on (src, group extension) (seeded C10B)")
+v("C01,C09", J21, "'next_packet': min(self._max_cmdt_packets, max_num_packages),", "'next_packet': min(self._max_cmdt_packets, num_packages),", "break", "border ignores the RTS window (seeded C01B)")
+v("C01,C02", ECU, "return self.j1939_dll.send_pgn(data_page, pdu_format, pdu_specific, priority, src_address, data, time_limit, frame_format)", "return self.j1939_dll.send_pgn(data_page, pdu_format, pdu_specific, src_address, priority, data, time_limit, frame_format)", "break", "priority and source address swapped in the forwarder")
